@@ -37,8 +37,22 @@ def _java(extra_props=(), heap=None):
     return cmd
 
 
-def run(main_tla, cfg_path, wd, workers=16, args=(), env=None, timeout=3600, props=(), heap=None):
-    """Run TLC; returns (returncode, stdout text, wall seconds)."""
+# TLC exit statuses that are verdicts on the model (0 none, 10 assumption, 11 deadlock, 12 safety, 13 liveness); every
+# other status is an error of the run itself (evaluation error, unexpected exception inside TLC, ...)
+_VERDICT_RC = (0, 10, 11, 12, 13)
+RETRIES = []      # one record per TLC run that had to be repeated (reported in the evidence)
+
+
+def describe(text, n=2500):
+    """The part of a TLC output that says what went wrong: from the first 'Error:' on, and the end."""
+    k = text.find("Error:")
+    if k < 0:
+        return text[-n:]
+    head = text[k:k + n]
+    return head if k + n >= len(text) - n else head + "\n...\n" + text[-n:]
+
+
+def _run_once(main_tla, cfg_path, wd, workers, args, env, timeout, props, heap):
     cmd = _java(props, heap) + ["-workers", str(workers), "-metadir", os.path.join(wd, "md"),
                                 "-noGenerateSpecTE", "-fp", "1", "-config", cfg_path] + list(args) + [main_tla]
     e = dict(os.environ)
@@ -56,6 +70,34 @@ def run(main_tla, cfg_path, wd, workers=16, args=(), env=None, timeout=3600, pro
     # TLC's on-disk state (gigabytes for the larger searches) is of no use once it has finished
     shutil.rmtree(os.path.join(wd, "md"), ignore_errors=True)
     return p.returncode, p.stdout, time.time() - t0
+
+
+def run(main_tla, cfg_path, wd, workers=16, args=(), env=None, timeout=3600, props=(), heap=None):
+    """Run TLC; returns (returncode, stdout text, wall seconds).
+
+    A run that ends in an error of the run itself -- not a verdict -- is repeated, once as it was and then with a single
+    worker.  Evaluation is a function of the state and the search visits the same bounded state space whatever the number
+    of workers, so an error of the specification or of the harness recurs in every attempt (and is then reported by the
+    caller as a machinery failure, exit status 2); one that does not recur came from the workers' interleaving inside
+    TLC.  Verdicts (statuses 0, 10-13) are never repeated.  Every failed attempt's complete output is kept under
+    build/tlc-failures/."""
+    plan = [workers, workers, 1] if workers != 1 else [1, 1]
+    for attempt, w in enumerate(plan, 1):
+        rc, text, wall = _run_once(main_tla, cfg_path, wd, w, args, env, timeout, props, heap)
+        if rc in _VERDICT_RC:
+            return rc, text, wall
+        d = os.path.join(BUILD, "tlc-failures")
+        os.makedirs(d, exist_ok=True)
+        keep = os.path.join(d, "%s-%s-attempt%d.out" % (os.path.basename(wd.rstrip("/")), os.path.basename(main_tla), attempt))
+        with open(keep, "w") as f:
+            f.write(text)
+        last = attempt == len(plan)
+        RETRIES.append({"module": os.path.basename(main_tla), "workdir": os.path.basename(wd.rstrip("/")), "attempt": attempt,
+                        "workers": w, "rc": rc, "output": keep, "error": describe(text, 600)})
+        print("TLC-RETRY: %s attempt %d (%d workers) ended with status %s, not a verdict%s; output kept in %s\n%s"
+              % (os.path.basename(main_tla), attempt, w, rc, "" if last else "; running it again", keep, describe(text, 1200)),
+              flush=True)
+    return rc, text, wall
 
 
 _STATS = re.compile(r"(\d+) states generated, (\d+) distinct states found")
@@ -87,7 +129,7 @@ class MCResult:
         """A design-model failure is a machinery problem: the model is ours."""
         if not self.ok:
             raise MachineryError("design model check failed (rc=%s, violated=%s):\n%s"
-                                 % (self.rc, self.violated, self.text[-3000:]))
+                                 % (self.rc, self.violated, describe(self.text, 3000)))
         return self
 
 
@@ -247,7 +289,7 @@ def find_path(wd, name, base, defs, cfg_lines, goal, keep=("ev",), workers=16, t
     if "Invariant NotGoal is violated" not in text:
         if rc == 0:
             return None
-        raise MachineryError("goal search failed (rc=%s):\n%s" % (rc, text[-2000:]))
+        raise MachineryError("goal search failed (rc=%s):\n%s" % (rc, describe(text)))
     body = text[text.index("The behavior up to this point is:"):]
     hdrs = list(_STATE_HDR.finditer(body))
     evs = []
@@ -300,7 +342,7 @@ def simulate(wd, name, base, defs, cfg_lines, num, depth, seed, keep=("ev",), ti
                          args=["-simulate", "file=%s/tr,num=%d" % (sim, num), "-depth", str(depth),
                                "-seed", str(seed)], timeout=timeout)
     if rc != 0:
-        raise MachineryError("tlc -simulate failed rc=%s:\n%s" % (rc, text[-2000:]))
+        raise MachineryError("tlc -simulate failed rc=%s:\n%s" % (rc, describe(text)))
     behaviours = []
     for fn in sorted(os.listdir(sim)):
         states = []
